@@ -360,6 +360,7 @@ func (cl *w4Conn) c05Completed(rec *w4Cmd) {
 const (
 	w4ServerOverlap = " [a command naming the key was sent after the reply to an earlier one but before the server finished handling that one]"
 	w4TrackRaced    = " [closed or unsubscribed while a track command naming the key was being handled]"
+	w4BackendRemoved = " [the backend removed the key during the run]"
 	w4SubRaced      = " [closed or unsubscribed while the subscribe command of the connection was being handled]"
 )
 
@@ -386,6 +387,11 @@ func (cl *w4Conn) c05Class(what string, keys []string) string {
 	for _, k := range keys {
 		if n := cl.named[k]; n != nil && n.raced {
 			return w4TrackRaced
+		}
+	}
+	for _, k := range keys {
+		if cl.w.bdelKeys[k] {
+			return w4BackendRemoved
 		}
 	}
 	return ""
